@@ -109,7 +109,7 @@ def generate(ctx):
         ctx.corr("seq", P.op_seq(init, pre + ops + [("flags",), ("readAbs",), ("readRel",)]))
         ctx.sample({"init": [init[0], init[1][:4]], "ops": [o[0] for o in ops]})
     # complete table: every op from each freshness state on a small fixed sequence
-    base = G.notes_to_abs([(0, 60, 0, 24, 64), (0, 62, 24, 12, 80)], cap=48)
+    base = G.notes_to_abs([(5, 60, 0, 24, 64), (5, 62, 24, 12, 80)], cap=48)      # channel 5: every set_channel(0..3) is a real change
     rng2 = __import__("random").Random(1)
     oa = [G.notes_to_abs([(0, 65, 0, 12, 50)])]
     orl = [G.abs_to_rel(oa[0])]
